@@ -130,7 +130,7 @@ def _bulk_records(spec):
 def strategy(tier):
     return st.one_of(_object_case(), _object_case(), _object_case(), _object_case(), _object_case(), _bulk_case(),
                      hist.scenarios(HCFG).map(lambda s: dict(s, kind="history")), hist.scenarios(HCFG).map(lambda s: dict(s, kind="history")),
-                     st.tuples(hist.scenarios(dict(HCFG, max_steps=3)), st.integers(1, 2**31)).map(lambda t: dict(t[0], kind="history", bulk_files=t[1])).filter(lambda s: "bulk 0" not in s["tree"]))
+                     st.tuples(hist.scenarios(dict(HCFG, max_steps=3, long=False)), st.integers(1, 2**31)).map(lambda t: dict(t[0], kind="history", bulk_files=t[1])).filter(lambda s: "bulk 0" not in s["tree"]))
 
 
 def _norm(x):
